@@ -28,6 +28,19 @@ FOCUS = {
  'C20': [("EventBatcher.Add, Flush, IsFull", "batching/batching.go"), ("ReorderFetcher.flush, Add", "batching/reorder_fetcher.go"), ("ReorderBuffer", "batching/reorder_buffer.go")],
 }
 NOTES['v'] = NOTES['t'] + " Also welcome: turning a labelled break into a flag (or the reverse), named results with bare returns, inlining a two-line method at its only call site, extracting a helper that returns (value, error), passing a value through a pointer parameter, replacing a compound condition by nested ifs."
+FOCUS_W = {
+ 'C05': [("keyGroupRanges, NewKeySpace, KeySpace.RangeIndex", "partitioning/key_space.go"), ("AssignRanges", "partitioning/key_space.go")],
+ 'C07': [("sst.Table.Get, Table.ScanPrefix (record reading and the entries they hand out)", "dkv/sst/table.go"), ("sst.LevelList.Get, ScanPrefix", "dkv/sst/level_list.go")],
+ 'C08': [("recovery.Checkpoint.NextWALID, newCheckpointFromDocument", "dkv/recovery/checkpoint.go"), ("DB.Start, DB.Checkpoint", "dkv/db.go"), ("wal.Writer.Rotate, NewWriter", "dkv/wal/writer.go")],
+ 'C09': [("CheckpointList.Add, RetainOnly, IncludesTable, Save", "dkv/recovery/checkpoint_list.go"), ("newCheckpointFromDocument, Checkpoint.IncludesTable", "dkv/recovery/checkpoint.go")],
+ 'C12': [("jobSnapshot.addOperatorSnapshot, addSourceRunnerSnapshot, isComplete", "storage/snapshots/snapshot.go"), ("Store.AddOperatorSnapshot, AddSourceSnapshot, finishSnapshot", "storage/snapshots/store.go")],
+ 'C14': [("CreateSavepointArtifact, RestoreCheckpointFromSavepointArtifact", "storage/snapshots/savepoint_artifact.go"), ("Store.LoadCheckpoint", "storage/snapshots/store.go")],
+ 'C19': [("PartitionedPriorityQueue.Push, Pop, Peek, Delete", "util/ds/partitioned_priority_queue.go"), ("sliceu.SearchUnique", "util/sliceu/sliceu.go"), ("ds.Heap", "util/ds/heap.go")],
+ 'C20': [("EventBatcher.Add, Flush", "batching/batching.go"), ("ReorderBuffer.Reserve, Add, Drain", "batching/reorder_buffer.go")],
+}
+NOTES['w'] = NOTES['v']
+if variant == 'w':
+    ml = "\n".join(f" - {n}  [{w}]" for n, w in FOCUS_W[prop])
 if variant == 'v':
     ml = "\n".join(f" - {n}  [{w}]" for n, w in FOCUS[prop])
 NOTE = NOTES[variant]
